@@ -12,6 +12,7 @@ func init() {
 			{ID: "C01.R1", Title: "opTypeStrings lists, for every stem, Head/HeadOmitEmpty/PtrHead/PtrHeadOmitEmpty and Field/FieldOmitEmpty/End/EndOmitEmpty at exactly the offsets the OpType conversion functions add, and every Op constant indexes its own name", Covers: "omitempty / pointer-head / struct-end variants select the intended opcode", Min: 600, Run: c01r1},
 			{ID: "C01.R2", Title: "closure of the opcodes the compiler emits under the conversion functions is contained in the case labels of Run in each of the four VMs (slice/array end markers exempt when never made current)", Covers: "Marshal succeeds whenever encoding/json does (no 'opcode not implemented')", Min: 1300, Run: c01r2},
 			{ID: "C01.R3", Title: "typeToCode/typeToCodeWithPtr/mapKeyCode route every JSON-encodable reflect.Kind to a constructor and no unsupported kind", Covers: "set of supported types equals encoding/json's", Min: 50, Run: c01r3},
+			{ID: "C01.R5", Title: "in each interpreter the handler of an opcode of family Int/Uint/Float32/Float64/Bool/String/Bytes/Number/MarshalJSON/MarshalText calls exactly that family's append primitive and ptrTo loader, and the plain packages' appendX variables alias encoder.AppendX", Covers: "every value is printed by the primitive of its own type (same number values, same string contents)", Min: 900, Run: c01r5},
 			{ID: "C01.R4", Title: "copyOpcode and every Filter method that rebuilds its receiver carry over each field that is assigned anywhere else in the package, field-for-field", Covers: "cached/filtered programs behave like the freshly compiled one", Min: 20, Run: c01r4},
 		},
 	})
@@ -43,6 +44,7 @@ func init() {
 			{ID: "C05.R1", Title: "byte classes of every scanner state: in-string dispatch sends 0x01-0x1f to an error; value-level dispatch lets only blank { } [ ] \" , : - 0-9 t f n NUL avoid an error; escape dispatch accepts exactly \" \\ / b f n r t u and tests four hex digits after u", Covers: "raw control characters, stray bytes in ignored parts, invalid escapes cause an error", Min: 100, Run: c05r1},
 			{ID: "C05.R2", Title: "every function that consumes a run of floatTable/numTable bytes hands the token to strconv.ParseFloat/parseInt/parseUint (or returns it to callers that all do) before reporting success", Covers: "malformed numbers cause an error even in ignored parts", Min: 8, Run: c05r2},
 			{ID: "C05.R3", Title: "every success return of unmarshal/unmarshalContext/unmarshalNoEscape/extractFromPath after the decode call is the result of validateEndBuf, and validateEndBuf's NUL clause checks the cursor against len(src)", Covers: "anything following the value, including bytes after an embedded NUL, causes an error", Min: 6, Run: c05r3},
+			{ID: "C05.R5", Title: "in every container separator dispatch (a byte switch with clauses for ',' and a closing bracket) each path from the ',' clause to a successful return passes a call that scans another element", Covers: "trailing commas cause an error", Min: 8, Run: c05r5},
 			{ID: "C05.R4", Title: "floatTable (both copies), numTable, isWhiteSpace (both copies), validEndNumberChar, hexToInt hold exactly the RFC 8259 character sets", Covers: "no scanner consults a widened class", Min: 1700, Run: c05r4},
 		},
 	})
@@ -55,6 +57,7 @@ func init() {
 			{ID: "C06.R2", Title: "every cycle of the static-callee graph among functions carrying []byte/[]rune/*Stream/*runtime.Type, reachable (CHA) from the decoding and utility entry points, passes a function with a depth comparison or a memo lookup with early return", Covers: "no input-proportional recursion (fatal stack exhaustion)", Min: 4, Run: c06r2},
 			{ID: "C06.R3", Title: "no kind-restricted reflect.Type/Value method is called on the switched value inside a `case reflect.K` clause all of whose kinds make it panic", Covers: "Path.Get / assignment helpers never panic on a supported kind", Min: 10, Run: c06r3},
 			{ID: "C06.R3b", Title: "a reflect.Value that can be the zero Value for ordinary data (x.Elem(), reflect.ValueOf(<interface>), MapIndex) is never used, locally or in the module function it is passed to (all implementations for interface calls), as receiver of a method that panics on the zero Value unless an IsValid test protects the use", Covers: "Path.Get and the assignment helpers return an error, not a panic, for nil pointers / nil interfaces inside the source value", Min: 10, Run: c06r3b},
+			{ID: "C15.R6", Title: "in the four bitmap key decoders every path from one bitmap row read to the next passes the `curBit == 0` test whose true branch exits", Covers: "a key longer than every field name (also through multi-byte \\u escapes) ends the match instead of indexing past the bitmap", Min: 8, Run: c15r6},
 			{ID: "C06.R4", Title: "no ssa.Panic instruction of the module (outside init) is in a function CHA-reachable from the decoding/utility entry points", Covers: "no explicit panic on any input", Min: 5, Run: c06r4},
 		},
 	})
@@ -114,6 +117,8 @@ func init() {
 			{ID: "C15.R2", Title: "in the four bitmap key decoders the value compared with field.keyLen derives from the bitmap row counter, not from raw cursor positions", Covers: "a key never selects a field because it is an escaped spelling of a prefix", Min: 4, Run: c15r2},
 			{ID: "C15.R3", Title: "decodeKeyByBitmapUint8 ≡ …Uint16 and …Uint8Stream ≡ …Uint16Stream under {uint16→uint8, TrailingZeros16→8, keyBitmapUint16→8, MaxUint16→8}; buffer and stream versions dispatch on the same key bytes", Covers: "structs with ≤8 and ≤16 fields, in both modes, match keys alike", Min: 4, Run: c15r3},
 			{ID: "C15.R4", Title: "encoder and decoder never read reflect.StructField.Tag themselves; both call runtime.StructTagFromField / IsIgnoredStructField", Covers: "names, omitempty/string options and '-' mean the same when encoding and decoding", Min: 2, Run: c15r4},
+			{ID: "C15.R6", Title: "in the four bitmap key decoders every path from one bitmap row read to the next passes the `curBit == 0` test whose true branch exits", Covers: "a key longer than every field name (also through multi-byte \\u escapes) ends the match instead of indexing past the bitmap", Min: 8, Run: c15r6},
+			{ID: "C15.R7", Title: "in tryOptimize, a lower-cased name that is already registered refuses the optimisation unless the registered and the new *structFieldSet are pointer-identical", Covers: "exact match first, then case-insensitive: fields whose names differ only in case stay distinguishable", Min: 1, Run: c15r7},
 			{ID: "C15.R5", Title: "every bitmap column index passes through largeToSmallTable; tryOptimize lower-cases keys and refuses names whose Unicode lower-casing differs from ASCII folding; the table folds exactly A-Z", Covers: "case-insensitive matching agrees between the bitmap builder and the scanners", Min: 10, Run: c15r5},
 		},
 	})
